@@ -282,3 +282,82 @@ def harness_guard(fn):
             raise SystemExit(2)
 
     return run
+
+
+def drive_machine(ctx, machine_factory, max_examples, step_count, shrink_budget=None, max_restarts=4):
+    """Hypothesis stateful mode (RuleBasedStateMachine) with the same collect-then-shrink protocol as drive().
+
+    machine_factory(hook) returns a RuleBasedStateMachine subclass whose rules build an explicit trace
+    (self.trace: list of JSON step dicts) and call `hook.step(self.trace, failures)` after every executed step and
+    `hook.finish(self.trace, outcome)` from teardown().  The explicit trace is the replayable case.
+    """
+    import copy
+
+    import hypothesis
+    from hypothesis import HealthCheck, Phase, settings
+    from hypothesis.stateful import run_state_machine_as_test
+
+    if shrink_budget is None:
+        shrink_budget = 60 if ctx.tier == "quick" else 600
+    collected = set()
+    snap = None
+    for restart in range(max_restarts + 1):
+        if snap is not None:
+            (ctx.evaluations, ctx.discarded, ctx.nontrivial, ctx.classes, ctx.samples, ctx.known_hits, ctx.excluded) = copy.deepcopy(snap)
+        else:
+            snap = copy.deepcopy((ctx.evaluations, ctx.discarded, ctx.nontrivial, ctx.classes, ctx.samples, ctx.known_hits, ctx.excluded))
+        state = {"target": None, "best": None, "after": 0}
+
+        class Hook:
+            @staticmethod
+            def begin():
+                if state["target"] is not None:
+                    state["after"] += 1
+                    if state["after"] > shrink_budget:
+                        raise Violation(state["target"])
+
+            @staticmethod
+            def step(trace, failures):
+                case = {"steps": list(trace)}
+                ctx.journal(case)
+                out = Outcome()
+                out.failures = list(failures)
+                new = _handle(ctx, case, out, collected, state)
+                if new is not None:
+                    sig, msg = new
+                    if state["best"] is None or _case_size(case) < _case_size(state["best"]["case"]):
+                        state["best"] = {"case": case, "msg": msg}
+                    raise Violation(sig)
+
+            @staticmethod
+            def finish(trace, out):
+                if state["target"] is None:
+                    ctx.account({"steps": list(trace)}, out)
+
+        machine = machine_factory(Hook)
+        machine = hypothesis.seed(ctx.derived_seed())(machine)
+        st_ = settings(
+            max_examples=max_examples,
+            stateful_step_count=step_count,
+            database=None,
+            deadline=None,
+            derandomize=False,
+            report_multiple_bugs=False,
+            suppress_health_check=list(HealthCheck),
+            phases=[Phase.generate, Phase.shrink],
+            verbosity=hypothesis.Verbosity.quiet,
+            print_blob=False,
+        )
+        try:
+            run_state_machine_as_test(machine, settings=st_)
+        except Violation:
+            pass
+        except hypothesis.errors.Flaky as e:
+            ctx.extra.setdefault("flaky", []).append(str(e)[:300])
+        if state["target"] is None:
+            break
+        ctx.found[state["target"]] = state["best"]
+        collected.add(state["target"])
+        for s, v in state.get("pending", {}).items():
+            if s not in ctx.found and s not in ctx.known_open:
+                ctx.found.setdefault(s, v)
